@@ -13,7 +13,7 @@ use crate::cli::run_async;
 use crate::gen;
 use crate::harness::{Ctx, Tier};
 use crate::props::c01::Made;
-use crate::props::c07::{expected_requests, header_requests};
+use crate::props::c07::{chunk_data_requests, expected_requests};
 use crate::props::clonefam::{self, Which};
 use crate::refmodel::encoder::encode;
 use crate::scen::CompressSpec;
@@ -119,9 +119,8 @@ pub fn run(ctx: &mut Ctx) {
     if f.http {
         let ex = clonefam::expect(&f);
         if !ex.collision && !clonefam::truncated_twins(&f.ra) {
-            let mut want = header_requests(&f.ra);
-            want.extend(expected_requests(&f.ra, &ex.fetch));
-            let got: Vec<String> = ob.http_log.iter().map(|l| l.range.clone().unwrap_or_default()).collect();
+            let want = expected_requests(&f.ra, &ex.fetch);
+            let got = chunk_data_requests(&f.ra, &ob.http_log);
             if want != got {
                 let i = want.iter().zip(got.iter()).position(|(a, b)| a != b).unwrap_or(want.len().min(got.len()));
                 ctx.fail("request-list", format!("request #{} is {:?}, expected {:?} for this layout; {}", i, got.get(i), want.get(i), f.desc));
